@@ -220,7 +220,9 @@ where
                 }
             }
             chrom += 1;
-            seq.push(seqrec.seq().to_vec());
+            // Reference bases are copied into the output: keep them upper case, as
+            // middle bases are, so a soft-masked reference is not reported as variant
+            seq.push(seqrec.seq().to_ascii_uppercase());
         }
         if split_kmer_pos.is_empty() {
             panic!("{filename} has no valid sequence");
